@@ -19,14 +19,14 @@ import (
 
 // Job is one harness instance: an entry function with concrete arguments.
 type Job struct {
-	PkgPath string // import path of the harness package
-	Entry   string
-	Args    []int
-	Label   string   // human-readable instance (grammar id, variant set, ...)
-	Need    []string // reachability witnesses that must be hit on some path
-	MaxPaths int
+	PkgPath   string // import path of the harness package
+	Entry     string
+	Args      []int
+	Label     string   // human-readable instance (grammar id, variant set, ...)
+	Need      []string // reachability witnesses that must be hit on some path
+	MaxPaths  int
 	NoSamples bool // do not keep path samples for native validation
-	Meta    map[string]any
+	Meta      map[string]any
 }
 
 type JobResult struct {
@@ -272,21 +272,22 @@ func trunc(s string, n int) string {
 
 // Finding is a confirmed or unconfirmed violation.
 type Finding struct {
-	Property  string            `json:"property"`
-	Label     string            `json:"label"`
-	Entry     string            `json:"entry"`
-	Args      []int             `json:"args"`
-	PkgPath   string            `json:"pkg"`
-	Kind      string            `json:"kind"`
-	AssertID  string            `json:"assert_id"`
-	Msg       string            `json:"msg"`
-	Vars      map[string]uint64 `json:"vars"`
+	Property  string             `json:"property"`
+	Label     string             `json:"label"`
+	Entry     string             `json:"entry"`
+	Args      []int              `json:"args"`
+	PkgPath   string             `json:"pkg"`
+	Kind      string             `json:"kind"`
+	AssertID  string             `json:"assert_id"`
+	Msg       string             `json:"msg"`
+	Vars      map[string]uint64  `json:"vars"`
 	Strs      map[string][]int64 `json:"strings,omitempty"`
-	Confirmed bool              `json:"confirmed_natively"`
-	Native    *ReplayOutcome    `json:"native_outcome,omitempty"`
-	Meta      map[string]any    `json:"meta,omitempty"`
-	Known     string            `json:"known_finding,omitempty"`
-	Replay    string            `json:"replay_file,omitempty"`
+	Confirmed bool               `json:"confirmed_natively"`
+	Native    *ReplayOutcome     `json:"native_outcome,omitempty"`
+	Meta      map[string]any     `json:"meta,omitempty"`
+	Obs       []symx.ObsVal      `json:"engine_observations,omitempty"`
+	Known     string             `json:"known_finding,omitempty"`
+	Replay    string             `json:"replay_file,omitempty"`
 }
 
 func sortedKeys[V any](m map[string]V) []string {
